@@ -283,8 +283,13 @@ async fn spawn_argv(cases: &str, dir: &str) {
 		let (job, task) = start_job(Arc::new(Command { program, options }));
 		let (out2, cwd2, mark) = (out.clone(), cwd.clone(), case["mark"].as_str().unwrap().to_owned());
 		let use_hook = case["hook"].as_bool().unwrap();
+		let path = case["path"].as_str().unwrap_or("start").to_owned();
+		let long_lived = path != "start";
 		job.set_spawn_hook(move |cmd, _| {
 			cmd.command_mut().env("WXH_OUT", &out2);
+			if long_lived {
+				cmd.command_mut().env("WXH_MODE", "run").env("WXH_SCRIPT", "exit_after=250,on_term=exit:0");
+			}
 			if use_hook {
 				cmd.command_mut().env("WXH_MARK", &mark).current_dir(&cwd2);
 			}
@@ -293,11 +298,25 @@ async fn spawn_argv(cases: &str, dir: &str) {
 		let e2 = errs.clone();
 		job.set_error_handler(move |e| e2.lock().unwrap().push(format!("{:?}", e.get())));
 		job.start().await;
+		if long_lived {
+			// every way a process is (re)spawned must go through the hooked command
+			tokio::time::sleep(std::time::Duration::from_millis(40)).await;
+			let grace = std::time::Duration::from_millis(500);
+			let term = watchexec_signals::Signal::Terminate;
+			match path.as_str() {
+				"restart" => job.restart().await,
+				"try_restart" => job.try_restart().await,
+				"restart_with_signal" => job.restart_with_signal(term, grace).await,
+				"try_restart_with_signal" => job.try_restart_with_signal(term, grace).await,
+				o => panic!("path {o}"),
+			}
+		}
 		job.to_wait().await;
 		job.delete_now().await;
 		let _ = task.await;
 		let line = std::fs::read_to_string(&out).unwrap_or_default();
-		let rep: Value = line.lines().next().and_then(|l| serde_json::from_str(l).ok()).unwrap_or(Value::Null);
+		let starts: Vec<Value> = line.lines().filter_map(|l| serde_json::from_str::<Value>(l).ok()).filter(|v| v["ev"] == "start").collect();
+		let rep: Value = if long_lived { if starts.len() >= 2 { starts.last().cloned().unwrap() } else { Value::Null } } else { starts.first().cloned().unwrap_or(Value::Null) };
 		emit(&json!({"id": id, "report": rep, "errors": *errs.lock().unwrap(), "harness_pgid": me.0, "harness_sid": me.1,
 			"helper": hex(helper.to_string_lossy().as_bytes()), "cwd": cwd.to_string_lossy()}));
 	}
